@@ -16,7 +16,7 @@ RULE = (
     "python loop for difference and gradient; per-leading-index evaluation for independence. Non-trivial = mesh has "
     "a boundary edge, or n_face != n_node, or rank >= 2."
 )
-ASSUMPTIONS = ["edge_node / edge_face tables are the grid's own (decided by C02/C03)", "arccos law-of-cosines rounding: 1e-10 rad absolute tolerance on distances"]
+ASSUMPTIONS = ["edge_node / edge_face tables are the grid's own (decided by C02/C03)", "arccos law-of-cosines rounding: tolerance max(1e-10, 5e-16/d) rad on distances (the formula loses eps/d for very short edges)"]
 MIN_EVAL = {"quick": {"edge_node_distances": 70, "edge_face_distances": 70, "supplied_distances_carried": 30, "difference": 300, "gradient": 200, "normalized_gradient": 100, "dims_grid": 300},
             "thorough": {"edge_node_distances": 1500, "edge_face_distances": 1500, "supplied_distances_carried": 600, "difference": 6000, "gradient": 4000, "normalized_gradient": 2000, "dims_grid": 6000}}
 
@@ -72,12 +72,13 @@ def run_case(ctx, case):
                   {"got": efd[:5].tolist(), "want": want_f[:5].tolist(), "mesh": d})
     else:
         want = ref.angle(nodeP[en[:, 0]], nodeP[en[:, 1]])
-        bad = np.argwhere(~(np.abs(end - want) <= 1e-10))
+        # arccos of the law of cosines: absolute error ~ eps / distance for very short edges
+        bad = np.argwhere(~(np.abs(end - want) <= np.maximum(1e-10, 5e-16 / np.maximum(want, 1e-300))))
         ctx.check("edge_node_distances", end.shape == (n_edge,) and len(bad) == 0, sig0,
                   None if not len(bad) else {"edge": int(bad[0][0]), "got": float(end[bad[0][0]]), "want": float(want[bad[0][0]]), "mesh": d})
         wantf = np.zeros(n_edge)
         wantf[interior] = ref.angle(faceP[ef[interior, 0]], faceP[ef[interior, 1]])
-        bad = np.argwhere(~(np.abs(efd - wantf) <= 1e-10))
+        bad = np.argwhere(~(np.abs(efd - wantf) <= np.maximum(1e-10, np.where(wantf > 0, 5e-16 / np.maximum(wantf, 1e-300), 0.0))))
         ctx.check("edge_face_distances", efd.shape == (n_edge,) and len(bad) == 0, dict(sig0, n_face_vs_n_node="gt" if m.n_face > m.n_node else "le"),
                   None if not len(bad) else {"edge": int(bad[0][0]), "got": float(efd[bad[0][0]]), "want": float(wantf[bad[0][0]]), "boundary": bool(~interior[bad[0][0]]), "mesh": d})
     # data operators
